@@ -8,6 +8,8 @@ rows = []
 for f in sorted(glob.glob("/verif/seeded/*/meta.json")):
     m = json.load(open(f))
     notes = m.get("needs", "")
+    if not notes and os.path.exists(os.path.join(os.path.dirname(f), "notes.md")):
+        notes = open(os.path.join(os.path.dirname(f), "notes.md")).read()
     first = ""
     for ln in notes.splitlines():
         ln = ln.strip(" #*-")
@@ -24,6 +26,13 @@ for f in sorted(glob.glob("/verif/seeded/*/meta.json")):
         res.append("%s: %s" % (c, ("**caught** (`%s`)" % cl) if r["exit"] == 1 else ("inconclusive" if r["exit"] == 2 else "quiet")))
     ok = m.get("confirmed_in_scratch_worktree", {})
     conf = all(ok.get(k) for k in ("patch_applies", "builds", "baseline_5_packages_pass", "demo_passes_on_original", "demo_fails_with_change"))
+    if not m["breaks"]:
+        # a property-preserving refactoring: an exit 1 is a FALSE alarm
+        res = [x.replace("**caught**", "**FALSE ALARM**") for x in res]
+        if m.get("checks_run_after_correction"):
+            res.append("after the correction of the clause: " + ", ".join("%s quiet" % c for c, r in sorted(m["checks_run_after_correction"].items()) if r["exit"] == 0))
+        rows.append("| `%s` | nothing (refactoring) | %s | n/a | %s |" % (m["name"], first[:170].replace("|", "/"), "; ".join(res)))
+        continue
     rows.append("| `%s` | %s | %s | %s | %s |" % (m["name"], ",".join(m["breaks"]), first[:170].replace("|", "/"), "yes" if conf else "NO", "; ".join(res)))
 print("| seeded change | breaks | what it is (from the author's notes) | confirmed | checks run against it (quick tier) |")
 print("|---|---|---|---|---|")
